@@ -2,6 +2,7 @@ import Nstd.Avl.Props
 import Nstd.Avl.LemmasHeap
 import Nstd.Avl.LemmasHeapClimb
 import Nstd.Avl.LemmasHeapRemove
+import Nstd.Avl.LemmasHeapDescend
 /-
   Property C01 — the tie of the rotation code, by translation instead of by test.
 
@@ -466,6 +467,65 @@ theorem gen_remove_trivial_eq_model (multi : Bool) (ctx : Ctx) (h : Heap) (i : N
   have hd := delIdx_plug ctx (node i k v hh s l r) l.size (by simp only [Tree.size]; omega)
   rw [hd]
   simpa [Tree.delIdx] using e2
+
+/-! ### the descent of the private insert -/
+
+/-- **The descent of `Map::insert(cell, parent, key, value)`** of the current Map.hpp — the `begin:` … `goto begin` loop, or
+    the `for` loop of a restructured header (both shapes translate to the same Lean function) — started in the cell
+    `mc` that holds `t`: it stops where the model's `land` stops, after exactly `insCmps` key comparisons: at the item
+    with the key (tag 0; its value is overwritten, nothing else changes), or in an empty cell (tag 1) with the `parent`
+    the new item will get; `height + 1` units of fuel suffice. -/
+theorem gen_insert_descend_map_eq_model (h : Heap) (k v : Int) (t : Tree) (mc : Option (Nat × Bool)) (c fuel : Nat)
+    (hr : Repr h (h.get (cellOf mc)) (parOf mc) t) (hf : t.height < fuel) :
+    Map.insertDescend fuel h c (cellOf mc) (parOf mc) k v =
+      some (match Tree.land k mc t with
+        | .found id => (h.setValue (id + 1) v, 0, id + 1, cellOf (landCell k mc t), c + Tree.insCmps k t)
+        | .leaf mc' => (h, 1, parOf mc', cellOf mc', c + Tree.insCmps k t)) := by
+  unfold Map.insertDescend
+  exact map_descend_loop h k v t mc c fuel 0 hr hf
+
+/-- **The descent of `MultiMap::insert(cell, parent, key, value)`**: one `<` per level, always ends in the empty cell the
+    model's `landM` names (behind the last key `≤ k` of its path), after `insMCmps` comparisons, without storing. -/
+theorem gen_insert_descend_multi_eq_model (h : Heap) (k v : Int) (t : Tree) (mc : Option (Nat × Bool)) (c fuel : Nat)
+    (hr : Repr h (h.get (cellOf mc)) (parOf mc) t) (hf : t.height < fuel) :
+    ∃ mc', Tree.landM k mc t = .leaf mc' ∧
+      Multi.insertDescend fuel h c (cellOf mc) (parOf mc) k v = some (1, parOf mc', cellOf mc', c + Tree.insMCmps k t) := by
+  unfold Multi.insertDescend
+  exact multi_descend_loop h k v t mc c fuel 0 hr hf
+
+/-- where the Map descent ends in an empty cell, that cell is the hole of a context `ctx` of the tree: the path the
+    descent took (`PathMap`), held by the heap if the heap held the tree — this is the context the upward loop then
+    climbs (`gen_insert_loop_map_eq_model`) -/
+theorem land_ctx (h : Heap) (k : Int) : ∀ (t : Tree) (ctx0 : Ctx) (mc' : Option (Nat × Bool)),
+    Tree.land k ctx0.mcell t = .leaf mc' → ctx0.PathMap k → ReprCtx h ctx0 → Repr h (h.get ctx0.cell) ctx0.par t →
+    ∃ ctx : Ctx, ctx.plug .nil = ctx0.plug t ∧ ctx.PathMap k ∧ ctx.mcell = mc' ∧ ReprCtx h ctx ∧ h.get ctx.cell = 0 := by
+  intro t
+  induction t with
+  | nil =>
+    intro ctx0 mc' hl hp hc hr
+    simp only [Tree.land, Landing.leaf.injEq] at hl
+    exact ⟨ctx0, rfl, hp, hl, hc, hr⟩
+  | node i k' v hh s l r ihl ihr =>
+    intro ctx0 mc' hl hp hc hr
+    rw [repr_node_iff] at hr
+    obtain ⟨eP, kP, vP, pP, hP, sP, rL, rR⟩ := hr
+    simp only [Tree.land] at hl
+    by_cases h1 : k > k'
+    · simp only [h1, if_true] at hl
+      have := ihr (Ctx.right i k' v hh s l ctx0) mc' hl ⟨h1, hp⟩
+        (by rw [eP] at kP vP pP hP sP rL; exact ⟨kP, vP, hP, sP, pP, eP, rL, hc⟩)
+        (by rw [eP] at rR; exact rR)
+      obtain ⟨ctx, a1, a2, a3, a4, a5⟩ := this
+      exact ⟨ctx, a1, a2, a3, a4, a5⟩
+    · simp only [h1, if_false] at hl
+      by_cases h2 : k < k'
+      · simp only [h2, if_true] at hl
+        have := ihl (Ctx.left i k' v hh s r ctx0) mc' hl ⟨h2, hp⟩
+          (by rw [eP] at kP vP pP hP sP rR; exact ⟨kP, vP, hP, sP, pP, eP, rR, hc⟩)
+          (by rw [eP] at rL; exact rL)
+        obtain ⟨ctx, a1, a2, a3, a4, a5⟩ := this
+        exact ⟨ctx, a1, a2, a3, a4, a5⟩
+      · simp only [h2, if_false] at hl; cases hl
 
 /-! ### non-vacuity: a concrete heap -/
 
